@@ -1,5 +1,7 @@
-"""Translator piece for C03: the table of every place inside /repo/src/place_global and
-/repo/src/place_detailed that can modify a `Circuit`:
+"""Translator piece for C03: the table of every place that can modify a `Circuit` on a path of a
+placement call.  Scope ("analysed functions"): every function of /repo/src/place_global and
+/repo/src/place_detailed, plus the placement entry points of `Circuit` itself (all overloads of
+`place`, `placeGlobal`, `legalize`, `placeDetailed` in src/coloquinte.hpp / src/coloquinte.cpp).  Listed:
 
   * assignments / compound assignments / ++ -- to a `Circuit` data member or to an element of
     one (`circuit.cellX_[i] = …`, `circuit_.hasNetUpdate_ = false`, vector<bool> proxies),
@@ -14,6 +16,19 @@ For element writes the enclosing `for` loop is matched against the fixed-cell sk
                  on the same circuit object and the same index variable IDX that the write uses,
                  and IDX is not modified inside the body;
   ifNotFixed   : the write sits in the then-branch of `if (!circuit.isFixed(IDX))` (same conditions).
+
+A `Circuit` data member handed to the constructor of a local object is accepted only when the class is a
+scoped flag guard (one `bool &` field bound to the argument, constructor body `flag_ = true;`, destructor
+body `flag_ = false;`, nothing else — `InUseGuard` in src/coloquinte.cpp) and the object is an automatic
+variable declared directly in the function body: site kind `scoped` (set on entry, cleared on every exit).
+
+The closure argument: a non-const `Circuit` reaches code outside the analysed functions only through a
+hand-over (table `handOvers`, all to analysed functions) or a non-const `Circuit` method call (a write
+site `method:`, unless it is one of the entry points, which is then a hand-over).  Everything else the
+placement calls reach sees the circuit through `const` (table `reachedConstMethods`), and `constEscapes`
+lists every construct in any translation unit of /repo/src that could remove that `const`
+(`const_cast`, `reinterpret_cast`, C-style pointer/reference casts, `mutable` fields of `Circuit`) — proved
+empty.  The user's callback is user code and outside the table.
 
 Any use of a non-const `Circuit` member whose shape is not understood (bound to a reference,
 passed by non-const reference, iterated with non-const iterators, …) raises TranslateError:
@@ -31,7 +46,12 @@ import common as C  # noqa: E402
 import translate as T  # noqa: E402
 
 DIRS = ["src/place_global", "src/place_detailed"]
-ALLOWED = ["cellX_", "cellY_", "cellOrientation_", "hasCellSizeUpdate_", "hasNetUpdate_"]
+# the placement entry points of Circuit (every overload) are analysed like the two directories
+ENTRY = ["place", "placeGlobal", "legalize", "placeDetailed"]
+ENTRY_FILES = ["src/coloquinte.hpp", "src/coloquinte.cpp"]
+# translation units outside DIRS: scanned for the entry points and for const escapes
+EXTRA_TUS = ["src/coloquinte.cpp", "src/export.cpp", "src/parameters.cpp"]
+ALLOWED = ["cellX_", "cellY_", "cellOrientation_", "hasCellSizeUpdate_", "hasNetUpdate_", "isInUse_"]
 ASSIGN_OPS = {"=", "+=", "-=", "*=", "/=", "%=", "&=", "|=", "^=", "<<=", ">>="}
 
 
@@ -134,6 +154,7 @@ class FileScan:
         self.fields, self.methods = {}, {}
         self.find_circuit()
         self.sites, self.delegations, self.defined = [], [], []
+        self.reached, self.escapes = {}, []
 
     def find_circuit(self):
         for o in self.objs:
@@ -142,11 +163,26 @@ class FileScan:
                     for c in kids(n):
                         if c.get("kind") == "FieldDecl":
                             self.fields[c["id"]] = c["name"]
+                            if c.get("mutable"):
+                                self.escapes.append({"file": "src/coloquinte.hpp", "function": "Circuit", "line": (c.get("loc") or {}).get("line", 0),
+                                                     "what": "mutable field " + c["name"]})
                         elif c.get("kind") == "CXXMethodDecl":
                             q = qual(c)
                             const = bool(re.search(r"\)\s*const\b", q))
                             static = c.get("storageClass") == "static"
                             self.methods[c["id"]] = (c["name"], const or static)
+        # out-of-line definitions are redeclarations with their own id (a call that follows the definition in
+        # the same translation unit references that one)
+        rec_ids = set()
+        for o in self.objs:
+            for n in T.walk(o):
+                if n.get("kind") == "CXXRecordDecl" and n.get("name") == "Circuit":
+                    rec_ids.add(n["id"])
+        for o in self.objs:
+            for n in T.walk(o):
+                if n.get("kind") == "CXXMethodDecl" and n.get("parentDeclContextId") in rec_ids and n["id"] not in self.methods:
+                    q = qual(n)
+                    self.methods[n["id"]] = (n["name"], bool(re.search(r"\)\s*const\b", q)) or n.get("storageClass") == "static")
         # a translation unit that never sees the definition of Circuit cannot name its members
         self.sees_circuit = bool(self.fields)
         if not self.sees_circuit and "src/coloquinte.hpp" in self.deps:
@@ -275,8 +311,13 @@ class FileScan:
         for o in self.objs:
             self.scan_decls(o, [])
 
-    def in_scope(self, path):
-        return any(path.startswith(os.path.join(C.REPO, d) + os.sep) for d in DIRS)
+    def in_scope(self, path, cls=None, name=None):
+        if any(path.startswith(os.path.join(C.REPO, d) + os.sep) for d in DIRS):
+            return True
+        return cls == "Circuit" and name in ENTRY and any(path == os.path.join(C.REPO, f) for f in ENTRY_FILES)
+
+    def in_repo_src(self, path):
+        return bool(path) and path.startswith(os.path.join(C.REPO, "src") + os.sep)
 
     def scan_decls(self, n, ctx):
         k = n.get("kind")
@@ -289,20 +330,102 @@ class FileScan:
         if k in ("FunctionDecl", "CXXMethodDecl", "CXXConstructorDecl", "CXXDestructorDecl", "CXXConversionDecl"):
             body = [c for c in kids(n) if c.get("kind") == "CompoundStmt"]
             f = (n.get("loc") or {}).get("_file") or (n.get("loc") or {}).get("expansionLoc", {}).get("_file")
-            if not body or not f or not self.in_scope(f):
+            if not body or not f:
                 return
             # qualified name: the lexical class, or the class of an out-of-line definition
             cls = ctx[-1] if ctx else None
             if not cls and n.get("parentDeclContextId"):
                 cls = self.class_names().get(n["parentDeclContextId"])
             qn = (cls + "::" if cls else "") + n.get("name", "?")
+            if self.in_repo_src(f):
+                self.scan_escapes(n, qn, os.path.relpath(f, C.REPO))
+            if not self.in_scope(f, cls, n.get("name")):
+                return
             params = [qual(c) for c in kids(n) if c.get("kind") == "ParmVarDecl"]
             relf = os.path.relpath(f, C.REPO)
+            is_entry = cls == "Circuit" and n.get("name") in ENTRY
+            if is_entry and (re.search(r"\)\s*const\b", qual(n)) or n.get("storageClass") == "static"):
+                raise T.TranslateError("%s: placement entry point %s is const/static — not the shape this table understands" % (relf, qn))
             self.defined.append({"name": n.get("name"), "qname": qn, "file": relf,
-                                 "circuit_ref": any(re.fullmatch(r"(coloquinte::)?Circuit &", p) for p in params)})
+                                 "circuit_ref": is_entry or any(re.fullmatch(r"(coloquinte::)?Circuit &", p) for p in params)})
             inits = [c for c in kids(n) if c.get("kind") == "CXXCtorInitializer"]
             for part in inits + body:
                 self.scan_body(part, [n], qn, relf)
+
+    def scan_escapes(self, fn_node, qn, relf):
+        """const_cast / reinterpret_cast / C-style or functional casts to a pointer or reference anywhere in a
+        function of /repo/src: the constructs that could turn a `const Circuit` back into a writable one."""
+        for x in T.walk(fn_node):
+            k = x.get("kind")
+            what = None
+            if k in ("CXXConstCastExpr", "CXXReinterpretCastExpr"):
+                what = k + " to " + qual(x)
+            elif k in ("CStyleCastExpr", "CXXFunctionalCastExpr") and x.get("castKind") in ("NoOp", "BitCast", "LValueBitCast", "Dependent") \
+                    and (qual(x).rstrip().endswith(("*", "&")) or x.get("valueCategory") in ("lvalue", "xvalue")):
+                what = k + " to " + qual(x)
+            if what:
+                r = (x.get("range") or {}).get("begin") or {}
+                line = r.get("line") or (r.get("expansionLoc") or {}).get("line") or 0
+                self.escapes.append({"file": relf, "function": qn, "line": line, "what": what})
+
+    def flag_guard(self, cls, where):
+        """Check that class `cls` is a scoped flag guard; returns None or raises."""
+        def bad(why):
+            raise T.TranslateError("%s: object of class %s built from a Circuit member, but %s" % (where, cls, why))
+        decl = None
+        for o in self.objs:
+            for n in T.walk(o):
+                if n.get("kind") == "CXXRecordDecl" and n.get("name") == cls and n.get("completeDefinition"):
+                    decl = n
+        if decl is None:
+            bad("its definition is not visible")
+        if any(c.get("kind") == "CXXBaseSpecifier" for c in kids(decl)) or decl.get("bases"):
+            bad("it has base classes")
+        fields = [c for c in kids(decl) if c.get("kind") == "FieldDecl"]
+        if len(fields) != 1 or qual(fields[0]) != "bool &":
+            bad("it does not have exactly one field of type bool &")
+        fid = fields[0]["id"]
+
+        def sets_flag(body, value):
+            st = kids(body)
+            if len(st) != 1:
+                return False
+            b = strip(st[0])
+            if b.get("kind") != "BinaryOperator" or b.get("opcode") != "=":
+                return False
+            l, r = kids(b)
+            l, r = strip(l), strip(r)
+            return l.get("kind") == "MemberExpr" and l.get("referencedMemberDecl") == fid and \
+                strip(kids(l)[0]).get("kind") == "CXXThisExpr" and r.get("kind") == "CXXBoolLiteralExpr" and r.get("value") is value
+        ctors = dtors = 0
+        for c in kids(decl):
+            k = c.get("kind")
+            if k in ("FieldDecl", "AccessSpecDecl", "FullComment") or (k == "CXXRecordDecl" and c.get("isImplicit")):
+                continue
+            if c.get("explicitlyDeleted") or c.get("isImplicit"):
+                continue
+            body = [x for x in kids(c) if x.get("kind") == "CompoundStmt"]
+            if k == "CXXConstructorDecl":
+                ps = [x for x in kids(c) if x.get("kind") == "ParmVarDecl"]
+                inits = [x for x in kids(c) if x.get("kind") == "CXXCtorInitializer"]
+                if len(ps) != 1 or qual(ps[0]) != "bool &" or len(inits) != 1 or len(body) != 1:
+                    bad("its constructor is not (bool &) with one initializer")
+                ini = inits[0]
+                src = strip(kids(ini)[0]) if kids(ini) else {}
+                if (ini.get("anyInit") or {}).get("id") != fid or src.get("kind") != "DeclRefExpr" or \
+                        (src.get("referencedDecl") or {}).get("id") != ps[0]["id"]:
+                    bad("its constructor does not bind the field to the argument")
+                if not sets_flag(body[0], True):
+                    bad("its constructor body is not `flag = true;`")
+                ctors += 1
+            elif k == "CXXDestructorDecl":
+                if len(body) != 1 or not sets_flag(body[0], False):
+                    bad("its destructor body is not `flag = false;`")
+                dtors += 1
+            else:
+                bad("it has another member (%s %s)" % (k, c.get("name")))
+        if ctors != 1 or dtors != 1:
+            bad("it does not have exactly one constructor and one destructor")
 
     def method_class(self):
         """id of a member function declaration -> name of its class"""
@@ -352,7 +475,14 @@ class FileScan:
                 name, const = self.methods[callee["referencedMemberDecl"]]
                 objx = kids(callee)[0] if kids(callee) else {}
                 if not const and not is_const_type(objx):
-                    self.add_site(stack, fn, relf, "method:" + name, "call", "none", n)
+                    if name in ENTRY:
+                        # one placement entry point calling another: the callee is analysed as well
+                        self.delegations.append({"file": relf, "function": fn, "line": self.line_of(n, stack),
+                                                 "callee": "Circuit::" + name, "simple": name})
+                    else:
+                        self.add_site(stack, fn, relf, "method:" + name, "call", "none", n)
+                else:
+                    self.reached[name] = True
         elif k == "CXXOperatorCallExpr" and len(kids(n)) >= 2:
             # whole-object assignment `circuit = …` (and any other mutating operator on a Circuit)
             op = operator_name(n) or ""
@@ -433,6 +563,16 @@ class FileScan:
             # a member function of the data member, called on the non-const object
             self.add_site(stack, fn, relf, name, "whole", "none", p)
             self.sites[-1]["via"] = p.get("name")
+            return
+        if pk == "CXXConstructExpr":
+            cls = re.sub(r"^(const )?(coloquinte::)?(\(anonymous namespace\)::)?", "", qual(p))
+            self.flag_guard(cls, "%s:%d: %s" % (relf, self.line_of(m, stack), fn))
+            var, dst, comp, fun = (up[pi + 1:pi + 5] + [{}] * 4)[:4]
+            if var.get("kind") != "VarDecl" or var.get("storageClass") or dst.get("kind") != "DeclStmt" or \
+                    comp.get("kind") != "CompoundStmt" or fun is not stack[0] or len(kids(p)) != 1:
+                unknown("flag guard that is not an automatic variable declared directly in the function body")
+            self.add_site(stack, fn, relf, name, "scoped", "none", p)
+            self.sites[-1]["via"] = cls
             return
         if pk == "CXXOperatorCallExpr":
             op = operator_name(p)
@@ -515,10 +655,24 @@ def generate():
     headers = []
     for d in DIRS:
         headers += [os.path.join(d, fn) for fn in sorted(os.listdir(os.path.join(C.REPO, d))) if fn.endswith((".hpp", ".h"))]
+    for f in EXTRA_TUS:
+        if not os.path.exists(os.path.join(C.REPO, f)):
+            raise T.TranslateError("expected translation unit %s is missing" % f)
+    other = sorted(os.path.relpath(os.path.join(dp, fn), C.REPO) for dp, _, fns in os.walk(os.path.join(C.REPO, "src"))
+                   for fn in fns if fn.endswith((".cpp", ".cc", ".cxx")))
+    unknown_tus = [f for f in other if f not in files and f not in EXTRA_TUS]
+    if unknown_tus:
+        raise T.TranslateError("translation units of /repo/src this table does not know about: %s" % unknown_tus)
+    dir_files = list(files)
+    files = files + EXTRA_TUS
     with ThreadPoolExecutor(min(C.NCPU, len(files))) as ex:
         scans = list(ex.map(_scan, files))
     sites, dels, defined, seen_files = {}, {}, {}, set()
+    reached, escapes = {}, {}
     for fs in scans:
+        reached.update(fs.reached)
+        for e in fs.escapes:
+            escapes[(e["file"], e["line"], e["function"], e["what"])] = e
         for s in fs.sites:
             sites[(s["file"], s["line"], s["function"], s["target"], s["kind"])] = s
         for dl in fs.delegations:
@@ -537,12 +691,23 @@ def generate():
     for df in defined.values():
         if df["circuit_ref"]:
             analysed.setdefault(df["qname"], set()).add(df["file"])
+    entries = sorted((df["qname"], df["file"]) for df in defined.values() if df["qname"].startswith("Circuit::"))
+    for nm in ENTRY:
+        if not any(q == "Circuit::" + nm for q, _ in entries):
+            raise T.TranslateError("no definition of the placement entry point Circuit::%s found" % nm)
+    for nm in ("placeGlobal", "legalize", "placeDetailed"):
+        if not any(q == "Circuit::" + nm and f == "src/coloquinte.cpp" for q, f in entries):
+            raise T.TranslateError("Circuit::%s(params, callback) is not defined in src/coloquinte.cpp" % nm)
     if sum(1 for fs in scans if fs.sees_circuit) < 4:
         raise T.TranslateError("class Circuit is visible from fewer than 4 of the analysed sources")
     site_list = sorted(sites.values(), key=lambda s: (s["file"], s["line"], s["target"]))
     del_list = sorted(dels.values(), key=lambda s: (s["file"], s["line"], s["callee"]))
     if not any(s["target"] == "cellX_" for s in site_list):
         raise T.TranslateError("no write to cellX_ found: the scan is not seeing the export functions")
+
+    def on_global_path(f, qname):
+        """global placement = src/place_global plus every overload of Circuit::placeGlobal"""
+        return f.startswith("src/place_global/") or (qname == "Circuit::placeGlobal" and f in ENTRY_FILES)
 
     def target(t):
         if t in ALLOWED:
@@ -553,10 +718,12 @@ def generate():
 
     L = []
     L.append("/-")
-    L.append("Every site inside /repo/src/place_global and /repo/src/place_detailed that can modify a `Circuit`")
-    L.append("(assignment to a data member or to one of its elements, non-const call on a data member,")
-    L.append("non-const `Circuit` method call) and every hand-over of a non-const `Circuit &`.")
-    L.append("Sources: " + ", ".join("%s %s" % (f, T.digest(T.read(f))) for f in files + headers))
+    L.append("Every site inside /repo/src/place_global, /repo/src/place_detailed and the placement entry points of")
+    L.append("`Circuit` (src/coloquinte.hpp, src/coloquinte.cpp) that can modify a `Circuit` (assignment to a data member")
+    L.append("or to one of its elements, non-const call on a data member, non-const `Circuit` method call, scoped flag")
+    L.append("guard) and every hand-over of a non-const `Circuit &`; the const `Circuit` methods reached from there and")
+    L.append("every construct in /repo/src that could remove a `const` (see tools/gen/WriteSets.py).")
+    L.append("Sources: " + ", ".join("%s %s" % (f, T.digest(T.read(f))) for f in files + headers + ["src/coloquinte.hpp"]))
     L.append("-/")
     L.append("namespace ColoVerif.Gen.WriteSets")
     L.append("")
@@ -570,7 +737,7 @@ def generate():
     L.append("deriving Repr, DecidableEq")
     L.append("")
     L.append("inductive Kind where")
-    L.append("  | element | whole | call")
+    L.append("  | element | whole | call | scoped")
     L.append("deriving Repr, DecidableEq")
     L.append("")
     L.append("/-- how the write is protected against fixed cells (see tools/gen/WriteSets.py) -/")
@@ -585,6 +752,7 @@ def generate():
     L.append("  target : Target")
     L.append("  kind : Kind")
     L.append("  guard : Guard")
+    L.append("  /-- in src/place_global or in an overload of `Circuit::placeGlobal` -/")
     L.append("  inPlaceGlobal : Bool")
     L.append("deriving Repr")
     L.append("")
@@ -593,13 +761,14 @@ def generate():
     for s in site_list:
         rows.append('  ⟨"%s", "%s", %d, %s, .%s, .%s, %s⟩' % (
             s["file"], s["function"], s["line"], target(s["target"]), s["kind"], s["guard"],
-            "true" if s["file"].startswith("src/place_global/") else "false"))
+            "true" if on_global_path(s["file"], s["function"]) else "false"))
     L.append(",\n".join(rows))
     L.append("]")
     L.append("")
     L.append("/-- a non-const `Circuit &` handed to another function; `calleeAnalysed`: a function of that name")
     L.append("taking `Circuit &` is defined inside the analysed directories (its writes are in `writeSites`);")
-    L.append("`calleeInPlaceGlobal`: every such definition is in src/place_global -/")
+    L.append("`inPlaceGlobal`: the caller is in src/place_global or is an overload of `Circuit::placeGlobal`;")
+    L.append("`calleeInPlaceGlobal`: every definition of the callee is -/")
     L.append("structure HandOver where")
     L.append("  file : String")
     L.append("  function : String")
@@ -615,15 +784,39 @@ def generate():
     for d in del_list:
         where = analysed.get(d["callee"], set())
         ok = bool(where)
-        cg = ok and all(f.startswith("src/place_global/") for f in where)
+        cg = ok and all(on_global_path(f, d["callee"]) for f in where)
         rows.append('  ⟨"%s", "%s", %d, "%s", %s, %s, %s⟩' % (
             d["file"], d["function"], d["line"], d["callee"], "true" if ok else "false",
-            "true" if d["file"].startswith("src/place_global/") else "false", "true" if cg else "false"))
+            "true" if on_global_path(d["file"], d["function"]) else "false", "true" if cg else "false"))
     L.append(",\n".join(rows))
+    L.append("]")
+    L.append("")
+    L.append("/-- the placement entry points of `Circuit` that were analysed: (qualified name, file), one per overload -/")
+    L.append("def entryPoints : List (String × String) := [")
+    L.append(",\n".join('  ("%s", "%s")' % e for e in entries))
+    L.append("]")
+    L.append("")
+    L.append("/-- const (or static) `Circuit` methods called from the analysed functions -/")
+    L.append("def reachedConstMethods : List String := [" + ", ".join('"%s"' % r for r in sorted(reached)) + "]")
+    L.append("")
+    L.append("/-- a construct that could remove `const` from a `Circuit` (const_cast, reinterpret_cast, C-style pointer or")
+    L.append("reference cast, mutable field), anywhere in /repo/src -/")
+    L.append("structure ConstEscape where")
+    L.append("  file : String")
+    L.append("  function : String")
+    L.append("  line : Nat")
+    L.append("  what : String")
+    L.append("deriving Repr")
+    L.append("")
+    esc_list = sorted(escapes.values(), key=lambda e: (e["file"], e["line"], e["what"]))
+    L.append("def constEscapes : List ConstEscape := [")
+    L.append(",\n".join('  ⟨"%s", "%s", %d, "%s"⟩' % (e["file"], e["function"], e["line"], e["what"].replace('"', "'")) for e in esc_list))
     L.append("]")
     L.append("")
     L.append("end ColoVerif.Gen.WriteSets")
     info = {"write_sites": len(site_list), "hand_overs": len(del_list), "functions_analysed": len(defined),
+            "entry_points": ["%s (%s)" % e for e in entries], "reached_const_methods": sorted(reached),
+            "const_escapes": len(esc_list), "translation_units": len(files),
             "files": len(files) + len(headers),
             "sites": ["%s:%d %s %s %s %s" % (s["file"], s["line"], s["function"], s["target"], s["kind"], s["guard"]) for s in site_list]}
     return {"WriteSets.lean": "\n".join(L) + "\n", "info": info}
